@@ -1,9 +1,11 @@
 package markdown
 
 import (
+	"bufio"
 	"bytes"
 	"context"
 	"fmt"
+	"html"
 	"io"
 	"io/fs"
 	"regexp"
@@ -16,6 +18,7 @@ import (
 	east "github.com/yuin/goldmark/extension/ast"
 	"github.com/yuin/goldmark/extension"
 	"github.com/yuin/goldmark/parser"
+	ghtml "github.com/yuin/goldmark/renderer/html"
 	"github.com/yuin/goldmark/text"
 
 	yaml "gopkg.in/yaml.v3"
@@ -305,7 +308,12 @@ func (m *Markdown) renderInlineChildren(w io.Writer, node ast.Node, src []byte) 
 func (m *Markdown) renderInlineNode(w io.Writer, node ast.Node, src []byte) error {
 	switch n := node.(type) {
 	case *ast.Text:
+		// Backslash escapes and character references are resolved and the result is
+		// escaped, as the reference renderer does; raw text is copied.
 		segment := string(n.Segment.Value(src))
+		if !n.IsRaw() {
+			segment = html.EscapeString(resolveText(n.Segment.Value(src)))
+		}
 		if _, err := io.WriteString(w, segment); err != nil {
 			return err
 		}
@@ -334,7 +342,7 @@ func (m *Markdown) renderInlineNode(w io.Writer, node ast.Node, src []byte) erro
 		content := m.inlineContent(n, src)
 		return m.renderTemplate(w, "link", map[string]any{
 			"href":    string(n.Destination),
-			"title":   string(n.Title),
+			"title":   resolveText(n.Title),
 			"content": content,
 		})
 	case *ast.Image:
@@ -342,7 +350,7 @@ func (m *Markdown) renderInlineNode(w io.Writer, node ast.Node, src []byte) erro
 		return m.renderTemplate(w, "image", map[string]any{
 			"src":   string(n.Destination),
 			"alt":   alt,
-			"title": string(n.Title),
+			"title": resolveText(n.Title),
 		})
 	case *ast.AutoLink:
 		url := string(n.URL(src))
@@ -407,12 +415,22 @@ func inlineText(node ast.Node, src []byte) string {
 	var buf strings.Builder
 	for c := node.FirstChild(); c != nil; c = c.NextSibling() {
 		if t, ok := c.(*ast.Text); ok {
-			buf.Write(t.Segment.Value(src))
+			buf.WriteString(resolveText(t.Segment.Value(src)))
 		} else if c.HasChildren() {
 			buf.WriteString(inlineText(c, src))
 		}
 	}
 	return buf.String()
+}
+
+// resolveText returns the text a Markdown source fragment stands for: backslash
+// escapes and character references resolved the way the reference renderer resolves them.
+func resolveText(b []byte) string {
+	var buf bytes.Buffer
+	bw := bufio.NewWriter(&buf)
+	ghtml.DefaultWriter.Write(bw, b)
+	_ = bw.Flush()
+	return html.UnescapeString(buf.String())
 }
 
 // codeBlockContent extracts the raw text lines from a code block node.
